@@ -37,14 +37,19 @@ RECURSIVE JoinWith(_, _)
 JoinWith(cs, sep) == IF cs = <<>> THEN <<>>
                      ELSE IF Len(cs) = 1 THEN cs[1]
                      ELSE cs[1] \o <<sep>> \o JoinWith(Tail(cs), sep)
-(* six ways of turning a component sequence into an id *)
-NVariants == 6
+RECURSIVE JoinSeq(_, _)
+JoinSeq(cs, sep) == IF cs = <<>> THEN <<>> ELSE IF Len(cs) = 1 THEN cs[1] ELSE cs[1] \o sep \o JoinSeq(Tail(cs), sep)
+(* eight ways of turning a component sequence into an id (7, 8: the separator percent-encoded, as a client that takes the
+   id from a URL might send it; the server must treat such an id as the literal name it is) *)
+NVariants == 8
 MkId(cs, v) == CASE v = 1 -> JoinWith(cs, SL)
                  [] v = 2 -> <<SL>> \o JoinWith(cs, SL)
                  [] v = 3 -> <<SL, SL>> \o JoinWith(cs, SL)
                  [] v = 4 -> Root \o <<SL>> \o JoinWith(cs, SL)
                  [] v = 5 -> Parent \o <<SL>> \o JoinWith(cs, SL)
                  [] v = 6 -> JoinWith(cs, BSL)
+                 [] v = 7 -> JoinSeq(cs, <<"%", "2", "f">>)
+                 [] v = 8 -> JoinSeq(cs, <<"%", "2", "F">>)
 
 ListIds == { <<>>, <<"a">>, <<"a", "a">>, <<"a", "-", "a">>, <<"e">>, <<".">>, <<".", ".">>, <<SL>>,
              <<"a", SL, "a">>, <<".", ".", SL, "e", "2">>, <<".", ".", SL, "a">>, <<"a", SL, ".", ".">>,
